@@ -92,7 +92,7 @@ func ruleI11(c *Ctx) {
 // ---------- I12: the small arm is read only when there is no big arm ----------
 
 func init() {
-	register("I12", "small arms are meaningful only for small ints: wherever the first result of Int.get() (the small arm) takes part in arithmetic or a comparison, a dominating test has established that the second result (the big arm) of the same call is nil; for a big Int the small arm is zero, so a disjunctive guard (xBig == nil || yBig == nil) would compare a number with a meaningless 0", 10, ruleI12)
+	register("I12", "small arms are meaningful only for small ints: wherever the first result of Int.get() (the small arm) takes part in arithmetic or a comparison, a dominating test has established that the second result (the big arm) of the same call is nil; for a big Int the small arm is zero, so a disjunctive guard (xBig == nil || yBig == nil) would compare a number with a meaningless 0", 4, ruleI12)
 	claim("C10", "I12")
 	claim("C11", "I12")
 	claim("C12", "I12")
@@ -263,7 +263,7 @@ func ruleI12(c *Ctx) {
 			judge(small, 0)
 		})
 	}
-	if n < 10 {
+	if n < 4 {
 		c.anchorFail("only %d uses of small arms found", n)
 	}
 }
@@ -1727,5 +1727,125 @@ func ruleH9(c *Ctx) {
 	}
 	if n == 0 {
 		c.anchorFail("no empty-slot test found in the hashtable's insertion scan")
+	}
+}
+
+// ---------- J7: only quoted or numeric text reaches the JSON output ----------
+
+func init() {
+	register("J7", "nothing is written raw: every non-constant piece of text that json.encode writes to its output buffer is the result of a quoting or marshalling function (strconv.AppendQuote under its guard, encoding/json.Marshal, a value's MarshalJSON) or the text of a number (Float.String, fmt.Fprint of an Int); a key or field name written between hand-placed quote characters would break the document as soon as it contains a quote, a backslash or a control character", 3, ruleJ7)
+	claim("C18", "J7")
+}
+
+func ruleJ7(c *Ctx) {
+	n := 0
+	for _, fn := range c.P.Funcs {
+		if relPkg(fnPkgPath(fn)) != "lib/json" {
+			continue
+		}
+		top := outermost(fn)
+		if top.Name() != "encode" && !(top.Signature.Recv() != nil && strings.Contains(strings.ToLower(qualType(top.Signature.Recv().Type())), "encod")) {
+			continue
+		}
+		ord := 0
+		eachInstr(fn, func(in ssa.Instruction) {
+			call, ok := in.(*ssa.Call)
+			if !ok {
+				return
+			}
+			cal := call.Call.StaticCallee()
+			if cal == nil || cal.Signature.Recv() == nil {
+				return
+			}
+			pp, tn := namedOf(cal.Signature.Recv().Type())
+			if !((pp == "bytes" && tn == "Buffer") || (pp == "strings" && tn == "Builder")) {
+				return
+			}
+			switch cal.Name() {
+			case "Write", "WriteString":
+			default:
+				return
+			}
+			arg := call.Call.Args[1]
+			if _, isK := arg.(*ssa.Const); isK {
+				return
+			}
+			n++
+			ord++
+			key := fmt.Sprintf("%s: %s of non-constant text #%d", fnName(fn), cal.Name(), ord)
+			okSrc := ""
+			bad := ""
+			seen := map[ssa.Value]bool{}
+			var walk func(v ssa.Value, d int)
+			walk = func(v ssa.Value, d int) {
+				if d > 6 || seen[v] || bad != "" {
+					return
+				}
+				seen[v] = true
+				switch x := v.(type) {
+				case *ssa.Const:
+					if okSrc == "" {
+						okSrc = "constant text"
+					}
+				case *ssa.Extract:
+					walk(x.Tuple, d+1)
+				case *ssa.Convert:
+					walk(x.X, d+1)
+				case *ssa.ChangeType:
+					walk(x.X, d+1)
+				case *ssa.Slice:
+					walk(x.X, d+1)
+				case *ssa.Phi:
+					for _, e := range x.Edges {
+						walk(e, d+1)
+					}
+				case *ssa.Call:
+					if x.Call.IsInvoke() {
+						if x.Call.Method.Name() == "MarshalJSON" {
+							okSrc = "MarshalJSON"
+							return
+						}
+						bad = "the result of a dynamic call of " + x.Call.Method.Name()
+						return
+					}
+					cc := x.Call.StaticCallee()
+					if cc == nil {
+						bad = "the result of a dynamic call"
+						return
+					}
+					switch {
+					case strings.HasPrefix(cc.String(), "strconv.AppendQuote"), strings.HasPrefix(cc.String(), "strconv.Quote"), cc.String() == "encoding/json.Marshal":
+						okSrc = cc.String()
+					case cc.Name() == "String" && cc.Signature.Recv() != nil && (isNamed(cc.Signature.Recv().Type(), "starlark", "Float") || isNamed(cc.Signature.Recv().Type(), "starlark", "Int")):
+						okSrc = "the text of a number"
+					case cc.Blocks != nil && relPkg(fnPkgPath(cc)) == "lib/json" && cc.Signature.Results().Len() >= 1:
+						// a quoting helper of the package: judged by what it returns
+						eachInstr(cc, func(in2 ssa.Instruction) {
+							if ret, ok := in2.(*ssa.Return); ok && in2.Parent() == cc && len(ret.Results) > 0 {
+								walk(ret.Results[0], d+1)
+							}
+						})
+					default:
+						bad = "the result of " + cc.String()
+					}
+				case *ssa.BinOp:
+					bad = "a string built by concatenation"
+				default:
+					bad = fmt.Sprintf("a value that was not produced by a quoting function (%T)", v)
+				}
+			}
+			walk(arg, 0)
+			if bad == "" && okSrc != "" {
+				c.ok(key, c.P.Pos(call.Pos()), "produced by "+okSrc)
+			} else {
+				if bad == "" {
+					bad = "text of unknown origin"
+				}
+				c.viol(key, c.P.Pos(call.Pos()), "json.encode writes "+bad+" to its output without passing it through a JSON quoting function: a name or string containing '\"', '\\\\' or a control character makes the document invalid")
+			}
+		})
+	}
+	if n < 3 {
+		c.anchorFail("only %d non-constant writes found in json.encode", n)
 	}
 }
